@@ -78,6 +78,8 @@ def main():
         out.write(json.dumps(rec) + '\n')
         out.flush()
         print(json.dumps(rec))
+        os.makedirs('/var/tmp/mutlogs', exist_ok=True)
+        open(f"/var/tmp/mutlogs/{m['id']}-{prop}.log", 'w').write(p.stdout[-20000:])
         if p.returncode == 2:
           print(p.stdout[-1500:])
     finally:
